@@ -194,10 +194,11 @@ def check(index, ctx):
                     ctx.violated("R2", f"{fi.short}: {norm_text(n)[:80]}", f"call of `{full}` in autojac", fi.loc(n))
     ctx.call_sites += n_calls
     ctx.ok("R2", "autojac: forbidden autograd APIs", f"{n_calls} call sites scanned, none is backward/retain_grad/requires_grad_/register_hook", "", nontrivial=False)
-    from .C01 import single_pass_rule
+    from .C01 import single_pass_rule, unfiltered_rule
 
     for q in ("torchjd.autojac.backward.backward", "torchjd.autojac.mtl_backward.mtl_backward"):
         single_pass_rule(ctx, index, "R0", index.get_function(q))
+        unfiltered_rule(ctx, index, "R0", index.get_function(q))
     ctx.floor(".grad write events observed", n_w, 10)
     _pipe.common_evidence(ctx, index)
     ctx.assumptions += ["torch.autograd.grad itself has no .grad side effect (graphs without retain_grad() tensors: documented limitation)",
